@@ -53,9 +53,10 @@ ParseGroup(toks, i, depth) ==
           IN IF ~r.ok THEN Fail ELSE [ok |-> TRUE, i |-> r.i, items |-> << [c |-> t.v, k |-> "grp", body |-> r.items] >>]
      ELSE IF t.t = "sym" THEN ParseElements(toks, i, <<>>)
      ELSE IF t.t = "lp" /\ depth < 40
-          THEN LET i1 == IF Tok(toks, i + 1).t = "sep" THEN i + 2 ELSE i + 1       \* space allowed inside the parentheses
+          THEN LET Blank(k) == Tok(toks, k).t = "sep" /\ ("plus" \notin DOMAIN toks[k] \/ ~toks[k].plus)
+                   i1 == IF Blank(i + 1) THEN i + 2 ELSE i + 1                      \* blanks (not '+') allowed inside the parentheses
                    r == ParseCompound(toks, i1, depth + 1)
-                   i2 == IF r.ok /\ Tok(toks, r.i).t = "sep" THEN r.i + 1 ELSE r.i
+                   i2 == IF r.ok /\ Blank(r.i) THEN r.i + 1 ELSE r.i
                IN IF ~r.ok \/ Tok(toks, i2).t # "rp" THEN Fail
                   ELSE IF Tok(toks, i2 + 1).t = "num"
                        THEN [ok |-> TRUE, i |-> i2 + 2, items |-> << [c |-> toks[i2 + 1].v, k |-> "grp", body |-> r.items] >>]
@@ -73,8 +74,36 @@ ParseCompound(toks, i, depth) ==
 \* the whole token string is a compound of the grammar (the empty string is the empty formula)
 ParseAll(toks) == IF toks = <<>> THEN [ok |-> TRUE, i |-> 1, items |-> <<>>]
                   ELSE LET r == ParseCompound(toks, 1, 0)
-                           j == IF r.ok /\ Tok(toks, r.i).t = "sep" THEN r.i + 1 ELSE r.i
+                           j == IF r.ok /\ Tok(toks, r.i).t = "sep" /\ ("plus" \notin DOMAIN toks[r.i] \/ ~toks[r.i].plus) THEN r.i + 1 ELSE r.i
                        IN IF r.ok /\ j = Len(toks) + 1 THEN r ELSE Fail
+
+\* a compound with an optional density tag [t |-> "dens", v, kind] at the end
+ParseTagged(toks) ==
+  IF toks # <<>> /\ toks[Len(toks)].t = "dens"
+  THEN LET r == ParseAll(SubSeq(toks, 1, Len(toks) - 1))
+       IN IF r.ok /\ Len(toks) > 1 THEN [ok |-> TRUE, items |-> r.items, dens |-> toks[Len(toks)]] ELSE [ok |-> FALSE, items |-> <<>>, dens |-> [t |-> "none"]]
+  ELSE LET r == ParseAll(toks) IN [ok |-> r.ok, items |-> r.items, dens |-> [t |-> "none"]]
+\* The documentation does not say whether a blank may follow the leading count of a group ("2 H2O").  The loose
+\* reading drops such blanks; a string is certainly in the grammar if the strict parse succeeds and certainly
+\* outside if even the loose parse fails.
+RECURSIVE Loose(_, _)
+Loose(toks, i) ==
+  IF i > Len(toks) THEN <<>>
+  ELSE IF toks[i].t = "sep" /\ i > 1 /\ toks[i - 1].t = "num" /\ ("plus" \notin DOMAIN toks[i] \/ ~toks[i].plus)
+          /\ (i = 2 \/ toks[i - 2].t \in {"sep", "lp"}) /\ Tok(toks, i + 1).t = "sym"
+       THEN Loose(toks, i + 1)
+       ELSE <<toks[i]>> \o Loose(toks, i + 1)
+\* denotation of a structure: sequence of [z, a, q, c] with repeated atoms added and group counts multiplied in
+RECURSIVE FlatAtoms(_, _)
+FlatAtoms(items, mult) ==
+  IF items = <<>> THEN <<>>
+  ELSE LET it == Head(items)
+       IN (IF it.k = "atom" THEN << [z |-> it.z, a |-> it.a, q |-> it.q, c |-> Mul(mult, it.c)] >>
+           ELSE FlatAtoms(it.body, Mul(mult, it.c))) \o FlatAtoms(Tail(items), mult)
+AtomKeys(fl) == {<<fl[i].z, fl[i].a, fl[i].q>> : i \in DOMAIN fl}
+RECURSIVE TotalOf(_, _)
+TotalOf(fl, k) == IF fl = <<>> THEN Zero
+                  ELSE Add(IF <<Head(fl).z, Head(fl).a, Head(fl).q>> = k THEN Head(fl).c ELSE Zero, TotalOf(Tail(fl), k))
 
 \* ---- equality up to six significant digits --------------------------------------
 Digits(n) == IF n >= 1000 THEN 4 ELSE IF n >= 100 THEN 3 ELSE IF n >= 10 THEN 2 ELSE 1
